@@ -279,7 +279,8 @@ func checkCache(h *History, vs []*opView) {
 		// ---- C07 (c): equals the first relay apart from TTL and ID
 		if fr := first[sr.up+sr.key+fmt.Sprint(sr.serial)]; fr != nil && len(d.raw) < sizeLimit(v) {
 			h.S.Probe("c07_compared_with_first_relay")
-			mask := uint16(refdns.BitAA | refdns.BitTC | refdns.BitAD | refdns.BitCD | refdns.BitRA | refdns.BitQR | 0xF | 0x7800)
+			// (TC may legitimately differ: either response may have been cut for its transport; C09 owns that bit)
+			mask := uint16(refdns.BitAA | refdns.BitAD | refdns.BitCD | refdns.BitRA | refdns.BitQR | 0xF | 0x7800)
 			if m.Bits&mask != fr.m.Bits&mask {
 				h.S.Fail("C07", "hit-header", "%s: cached response header %04x, first relay %04x", name, m.Bits, fr.m.Bits)
 			}
